@@ -245,9 +245,9 @@ packet's own participant list. Witness: a member whose completed group records l
 accepts a reshare proposal naming address "l" with the attacker's key [66], signed by the attacker.
 Replayed on the real dkg.Process by the check (known finding "member-accepts-substituted-leader-key").
 -/
-def honestL : Participant := { addr := "l", key := [2], sig := [2], scheme := "pedersen-bls-chained" }
-def honestM : Participant := { addr := "m", key := [3], sig := [3], scheme := "pedersen-bls-chained" }
-def attackerL : Participant := { addr := "l", key := [66], sig := [66], scheme := "pedersen-bls-chained" }
+def honestL : Participant := { addr := "l", key := [2], sig := List.replicate 96 2, scheme := "pedersen-bls-chained" }
+def honestM : Participant := { addr := "m", key := [3], sig := List.replicate 96 3, scheme := "pedersen-bls-chained" }
+def attackerL : Participant := { addr := "l", key := [66], sig := List.replicate 96 66, scheme := "pedersen-bls-chained" }
 def memberState : DBState :=
   { beaconID := "default", epoch := 1, state := .complete, threshold := 2, timeout := 100,
     schemeID := "pedersen-bls-chained", genesisTime := 5, genesisSeed := [9], catchupSec := 1, periodSec := 3,
@@ -266,7 +266,7 @@ theorem c09_substitution_counterexample :
       next.leader.map (·.key) = some [66] := by
   intro p m
   have h : (p.packet m (.proposal forgedTerms) 0).1.current.map (fun n => (n.state, n.leader.map (·.key))) =
-      some (.proposed, some [66]) := by decide
+      some (.proposed, some [66]) := by decide +kernel
   cases hc : (p.packet m (.proposal forgedTerms) 0).1.current with
   | none => rw [hc] at h; cases h
   | some next =>
@@ -361,7 +361,7 @@ theorem c09_impostor_rejected (m : Meta) (pk : Packet) (t : Terms) (r : Particip
   obtain ⟨r', h1, h2, h3⟩ := c09_joiner_cannot_shadow_member m pk t r hr ha h
   exact hk r' h1 h2 h3.symm
 
-def impostorM : Participant := { addr := "m", key := [77], sig := [77], scheme := "pedersen-bls-chained" }
+def impostorM : Participant := { addr := "m", key := [77], sig := List.replicate 96 77, scheme := "pedersen-bls-chained" }
 def dupTerms : Terms :=
   { beaconID := "default", epoch := 2, threshold := 2, timeout := 100, schemeID := "pedersen-bls-chained", genesisTime := 5,
     genesisSeed := [9], catchupSec := 1, periodSec := 3, leader := honestL, joining := [impostorM],
@@ -375,7 +375,7 @@ def dupMeta (k : Bytes) : Meta :=
 example :
     (verifyMessage (dupMeta honestM.key) (.accept honestM) dupTerms).toOption = some () ∧
     (verifyMessage (dupMeta impostorM.key) (.accept honestM) dupTerms).toOption = none := by
-  decide
+  decide +kernel
 
 /-! ### what the signature covers -/
 
